@@ -183,3 +183,36 @@ Proof.
   intros H. pose proof (stream_bytes_spec c fs reset_complete_now) as S. rewrite H in S.
   destruct (encode_fits c (map (mkefile 0 0 0) fs) []) as [b| | |]; try contradiction. now subst.
 Qed.
+
+From Fit Require Import Model.Writer.
+From Coq Require Import ZArith.
+(* ---- end to end: messages in, destination bytes out.  A chain of message lists written message by message through the
+   stream encoder into a rewritable destination of any kind, through any write buffer: if the stream encoder accepts it, every
+   call succeeds and the destination ends up holding exactly encode_fits of the same lists *)
+Lemma batch_parts_ok c : forall fs acc ps, Forall parts_ok acc -> batch_parts c fs acc = Ok ps -> Forall parts_ok ps.
+Proof.
+  induction fs as [|ms fs IH]; intros acc ps Hacc; cbn [batch_parts].
+  - intros H; injection H as <-. exact Hacc.
+  - destruct (encode_parts c (mkefile 0 0 0 ms)) as [p| | |] eqn:E; cbn [bind]; try discriminate.
+    intros H. eapply IH; [|exact H]. apply Forall_app. split; [exact Hacc|]. constructor; [|constructor]. eapply encode_parts_ok; exact E.
+Qed.
+
+Theorem stream_end_to_end c k size fss ps : (can_seek k || can_writeat k = true)%bool ->
+  stream_sequences c (ss_init c) fss [] = Ok ps ->
+  exists w', stream_chain (wst_new k size [] None) ps 0 [] = (repeat false (length ps), w') /\
+             encode_fits c (map (mkefile 0 0 0) fss) [] = Ok (final_bytes w').
+Proof.
+  intros Hk Hs.
+  pose proof (stream_sequences_spec c reset_complete_now fss []) as H1. rewrite Hs in H1.
+  destruct (batch_parts c fss []) as [qs| | |] eqn:Eb; try contradiction. subst qs.
+  assert (Hok : Forall parts_ok ps) by (eapply batch_parts_ok; [constructor|exact Eb]).
+  destruct (wst_new_tidy k size) as (T & B & F).
+  assert (Hc : (ew_seeker (wst_new k size [] None) || ew_writerat (wst_new k size [] None) = true)%bool).
+  { unfold ew_seeker, ew_writerat, wst_new. cbn [w_kind w_size]. destruct k; cbn in Hk |- *; try discriminate; try reflexivity;
+      destruct ((if (size <=? 0)%Z then 0 else Z.to_N size) =? 0); reflexivity. }
+  destruct (stream_chain_spec ps _ 0 [] T B Hok Hc) as (w' & Hrun & _ & _ & Hfin).
+  exists w'. cbn [rev app] in Hrun. split; [exact Hrun|].
+  pose proof (batch_parts_fits c fss [] [] eq_refl) as H2. rewrite Eb in H2.
+  destruct (encode_fits c (map (mkefile 0 0 0) fss) []) as [b| | |]; try contradiction.
+  rewrite Hfin, F. cbn [app]. f_equal. rewrite <- H2. reflexivity.
+Qed.
